@@ -24,6 +24,8 @@ inline int wpick(Rng &r, std::initializer_list<std::pair<int, int>> l) {
 
 // Value descriptor packing in Op fields: b = vseed, c = vlen, klass in bits of d (world specific).
 // value-length distribution biased towards boundaries
+// lengths around the formatting buffer sizes of the printf-style APIs (1024 * 2^k)
+inline int gen_fmt_len(Rng &r) { return r.pick(std::vector<int>{1022, 1023, 1024, 1025, 1026, 2047, 2048, 2049, 4096, 4097}); }
 inline int gen_vlen(Rng &r, int maxlen) {
     switch (r.below(10)) {
     case 0: return 1;
